@@ -190,6 +190,35 @@ func Minimise(ck *Check, f Failure, known *KnownFindings, budget time.Duration) 
 			ops = cut
 		}
 	}
+	// slice by entity: keep only the operations that carry the tag of the violating operation
+	// (or of the last tagged operation before it) plus untagged ones (blocks, clocks, updates)
+	for try := 0; try < 2 && len(ops) > 2; try++ {
+		var tag int64
+		for i := len(ops) - 1; i >= 0; i-- {
+			if ops[i].T != 0 {
+				tag = ops[i].T
+				break
+			}
+		}
+		if tag == 0 {
+			break
+		}
+		var cand []Op
+		for _, o := range ops {
+			if o.T == 0 || o.T == tag {
+				cand = append(cand, o)
+			}
+		}
+		if len(cand) == len(ops) {
+			break
+		}
+		runs++
+		if _, ok := reproduces(ck, f.Cfg, cand, known, prop, class); ok {
+			ops = cand
+		} else {
+			break
+		}
+	}
 	n := 2
 	for len(ops) >= 2 && time.Since(start) < budget {
 		chunk := (len(ops) + n - 1) / n
